@@ -561,6 +561,7 @@ with p_operand (fuel : nat) (s : pst) (is_color : bool) {struct fuel} : pres opn
             (if p_in_matrix s1 then perr s1
              else let! (body, s2) := p_command_seq f (set_matrix_flag s1 true) in
                   POk (MatrixBlock n body) (set_matrix_flag s2 false))
+          else if negb is_color then perr s1      (* rows and columns are for colours: rejected with on / off, as zones are (D66) *)
           else let! (sp, s2) := p_spans f s1 None None None in
                POk (MatrixInline n (fst (fst sp)) (snd (fst sp)) (snd sp)) s2
       | _ => perr s1
